@@ -177,7 +177,9 @@ def _run_agnostic(case):
       p = _vec(st.params)
       w_prev = _f(st.domain_weights)
       win_prev = [_f(a) for a in st.domain_window]
+      in_win = st.domain_window
       st2, diag = alg.apply(st, _clients(case, r, dss))
+      input_win_after = [_f(a) for a in in_win]
       # reference: per-domain example counts and mean loss at the INPUT params
       cnt = [sum(case['pop'][i]['cnt'][d] for i in sel) for d in range(nd)]
       lsum = np.zeros(nd)
@@ -192,15 +194,32 @@ def _run_agnostic(case):
           'e': [math.exp(hp['dlr'] * m) if hp.get('dalg', 'eg') == 'eg' else 1.0 for m in mean],
           'params_finite': _finite(st2.params) and _finite(diag), 'win_len': len(st2.domain_window),
           'starved': [d for d in range(nd) if all(wv[d] == 0 for wv in win_prev)],
+          'input_win_after': input_win_after,
       })
       st = st2
+    # init() again on the same algorithm object, after the applies: the same initial state, and the same history
+    st_b = tiny.init_state('agnostic', hp, alg)
+    out['init_again'] = {'w': _f(st_b.domain_weights), 'win': [_f(a) for a in st_b.domain_window],
+                         'params_same': tiny.same_snapshot(tiny.snapshot(st_b.params), tiny.snapshot(tiny.init_params(hp.get('p0', 0))))}
+    again = []
+    for r in range(min(2, len(case['rounds']))):
+      st_b, _ = alg.apply(st_b, _clients(case, r, dss))
+      again.append({'w_new': _f(st_b.domain_weights), 'win_new': [_f(a) for a in st_b.domain_window]})
+    out['again'] = again
   except Exception as ex:
     out['err'] = type(ex).__name__ + ': ' + str(ex)[:200]
   return out
 
 
 def _coefs(cs):
-  return [float(np.asarray(cs.interpolation_coefficients['lin']['b'])), float(np.asarray(cs.interpolation_coefficients['lin']['w']))]
+  """The two per-leaf coefficients (leaf b, leaf w) of a client state (first entry of a non-scalar leaf)."""
+  c = cs.interpolation_coefficients['lin']
+  return [float(np.ravel(np.asarray(c['b'], np.float64))[0]), float(np.ravel(np.asarray(c['w'], np.float64))[0])]
+
+
+def _coefs_all(cs):
+  import jax
+  return [float(v) for l in jax.tree_util.tree_leaves(cs.interpolation_coefficients) for v in np.ravel(np.asarray(l, np.float64))]
 
 
 def _run_apfl(case):
@@ -217,6 +236,14 @@ def _run_apfl(case):
       prev_snap = {k: tiny.snapshot(v) for k, v in prev.items()}
       st2, _ = alg.apply(st, _clients(case, r, dss))
       seen |= set(sel)
+      # periodic evaluation of the personalised models on the WHOLE population (never-trained and empty
+      # clients included), the generator consumed, between two training rounds
+      ev_before = tiny.snapshot(st2)
+      ev_conts = tiny.containers(st2)
+      ev_out = list(tiny.apfl_eval()(st2, [(tiny.cid(i), d) for i, d in enumerate(dss)]))
+      ev = {'keys': sorted(int(k[1:]) for k in st2.client_states), 'n': len(ev_out),
+            'state_same': tiny.same_snapshot(ev_before, tiny.snapshot(st2)) and not tiny.writes(ev_conts),
+            'finite': _finite([m for _, m in ev_out])}
       refs = []
       for i in sel:
         # reference trajectory of the two per-leaf coefficients (leaf b, leaf w)
@@ -242,10 +269,10 @@ def _run_apfl(case):
                      'obs': _coefs(st2.client_states[tiny.cid(i)]) if tiny.cid(i) in st2.client_states else None})
       out['rounds'].append({
           'keys': sorted(int(k[1:]) for k in st2.client_states), 'participated': sorted(seen),
-          'coefs': {int(k[1:]): _coefs(v) for k, v in st2.client_states.items()},
+          'coefs': {int(k[1:]): _coefs_all(v) for k, v in st2.client_states.items()},
           'others_same': all(k in st2.client_states and tiny.same_snapshot(prev_snap[k], tiny.snapshot(st2.client_states[k]))
                              for k in prev if int(k[1:]) not in sel),
-          'refs': refs, 'finite': _finite(st2),
+          'refs': refs, 'finite': _finite(st2), 'eval': ev,
       })
       st = st2
   except Exception as ex:
@@ -409,6 +436,19 @@ def _or_agnostic(case, obs):
     want = (init + hist)[-W:] if W else []
     if ro['win_len'] != W or ro['win_new'] != want:
       out.append(('agnostic.window-wrong', f'round {r}: window {ro["win_new"]} is not the last {W} count vectors {want}'))
+    if ro['input_win_after'] != ro['win_prev']:
+      out.append(('agnostic.input-window-changed', f'round {r}: the window of the INPUT state was {ro["win_prev"]} before apply() and is '
+                  f'{ro["input_win_after"]} after it (not a window of constant length {W} any more)'))
+  ia = obs.get('init_again')
+  if ia is not None and obs['rounds']:
+    first = obs['rounds'][0]
+    if ia['win'] != first['win_prev'] or ia['w'] != first['w_prev'] or not ia['params_same']:
+      out.append(('agnostic.init-not-repeatable', f'init() on the same algorithm object after {len(obs["rounds"])} rounds returns window '
+                  f'{ia["win"]} / weights {ia["w"]}; the first init() gave {first["win_prev"]} / {first["w_prev"]}'))
+    for r, (a, ro) in enumerate(zip(obs.get('again', []), obs['rounds'])):
+      if a['w_new'] != ro['w_new'] or a['win_new'] != ro['win_new']:
+        out.append(('agnostic.second-history-differs', f'round {r} of a second history from a second init() on the same object: '
+                    f'window {a["win_new"]} vs {ro["win_new"]}'))
   return out
 
 
@@ -422,6 +462,14 @@ def _or_apfl(case, obs):
       out.append(('apfl.state-not-only-participants', f'round {r}: client states for {ro["keys"]}, participants so far {ro["participated"]}'))
     if not ro['finite']:
       out.append(('apfl.non-finite', f'round {r}: non-finite state'))
+    ev = ro['eval']
+    if ev['keys'] != ro['participated']:
+      out.append(('apfl.state-not-only-participants', f'round {r}: after EVALUATING the population the state holds client states for '
+                  f'{ev["keys"]}, participants so far {ro["participated"]}'))
+    if not ev['state_same']:
+      out.append(('apfl.eval-mutates-state', f'round {r}: evaluation changed the server state it was given'))
+    if ev['n'] != len(case['pop']) or not ev['finite']:
+      out.append(('apfl.eval-incomplete', f'round {r}: evaluation returned {ev["n"]} results / non-finite metrics'))
   return out
 
 
